@@ -499,10 +499,61 @@ def rule_benchmarks(F, R, fns):
     rnd = random.Random(99 + R.seed)
     n_ok = n_skip = 0
     skipped = []
-    D = 4
     for f in fns:
         if f.name != "do_vgrad" or f.is_lambda or len(f.params) != 2 or not f.relfile.startswith(("src/", "include/")):
             continue
+        # the derivative check runs at dimension 4 and, for benchmark functions, at the other small sizes their constructor can produce
+        # (a gradient written block-wise may leave components untouched at a size the blocks do not divide)
+        for D in ([4] + [d_ for d_ in ctor_sizes(F, f.cls) if d_ != 4][:3] if f.relfile.startswith("src/function/benchmark/") else [4]):
+            n_ok, n_skip = _benchmark_at(F, R, f, D, rnd, skipped, n_ok, n_skip)
+    R.note("benchmark functions: %d interpreted, %d outside the fragment: %s" % (n_ok, n_skip, "; ".join(skipped[:30])))
+    return n_ok
+
+
+def ctor_sizes(F, cls):
+    """sizes (<= 9) the class's constructor hands to function_t for requested dimensions 1..9 (evaluated concretely; [] when not evaluable)"""
+    out = set()
+    for g in F.functions.values():
+        if g.cls != cls or not g.raw.get("ctor") or not g.inits or not g.params:
+            continue
+        base = [i_ for i_ in g.inits if i_.get("k") == "init" and not i_.get("n") and i_.get("c")]
+        dimp = [p_ for p_ in g.params if "long" in (p_.get("t") or "") or "int" in (p_.get("t") or "")]
+        if not base or not dimp:
+            continue
+        call = skip(base[0]["c"][0]) if base[0].get("c") else None
+        cargs = [x for x in (call.get("c", ()) if call is not None else ()) if x is not None]
+        if len(cargs) < 2:
+            continue
+        expr = cargs[1]
+
+        def ev(n_, dims):
+            n_ = skip(n_)
+            while n_["k"] in ("cast", "paren", "construct", "materialize", "bind") and n_.get("c") and len([c_ for c_ in n_["c"] if c_ is not None]) == 1:
+                n_ = skip([c_ for c_ in n_["c"] if c_ is not None][0])
+            if n_["k"] == "int":
+                return n_["v"]
+            if n_["k"] == "ref" and n_.get("d") == dimp[0]["d"]:
+                return dims
+            if n_["k"] == "bin" and n_["op"] in ("+", "-", "*", "/", "%"):
+                a_, b_ = ev(n_["c"][0], dims), ev(n_["c"][1], dims)
+                if a_ is None or b_ is None or (n_["op"] in ("/", "%") and b_ == 0):
+                    return None
+                return {"+": lambda: a_ + b_, "-": lambda: a_ - b_, "*": lambda: a_ * b_, "/": lambda: int(a_ / b_), "%": lambda: a_ - b_ * int(a_ / b_)}[n_["op"]]()
+            if n_["k"] == "call" and callee(n_) in ("std::max", "std::min") and len(args(n_)) == 2:
+                a_, b_ = ev(args(n_)[0], dims), ev(args(n_)[1], dims)
+                if a_ is None or b_ is None:
+                    return None
+                return max(a_, b_) if callee(n_) == "std::max" else min(a_, b_)
+            return None
+        for dims in range(1, 10):
+            v = ev(expr, dims)
+            if v is not None and 1 <= v <= 9:
+                out.add(v)
+    return sorted(out)
+
+
+def _benchmark_at(F, R, f, D, rnd, skipped, n_ok, n_skip):
+    if True:
         X = [sym("x%d" % i) for i in range(D)]
 
         def run(with_grad):
@@ -521,28 +572,33 @@ def rule_benchmarks(F, R, fns):
         except (OutOfFragment, Exception) as e:
             n_skip += 1
             skipped.append("%s (%s)" % (f.cls.split("::")[-1], str(e)[:50]))
-            continue
+            return n_ok, n_skip
         if V1 is None or is_arr(V1):
             n_skip += 1
-            continue
+            return n_ok, n_skip
         inst = "%s %s [D=%d]" % ("benchmark" if f.relfile.startswith("src/function/benchmark/") else "function", f.cls.split("::")[-1], D)
         syms = sorted(sp.sympify(V1).free_symbols | set(X), key=lambda s: s.name)
         same, wit = numeric_equal(sp.sympify(V1), sp.sympify(V0), syms, rnd, points=6)
         if same is None:
             n_skip += 1
-            continue
+            return n_ok, n_skip
         n_ok += 1
         R.check(bool(same), "R-C06-1", inst + " same value", f.loc(), "value-only and value+gradient evaluation give the same value", "the value depends on whether a gradient is requested: " + wit)
         bad = None
         for j in range(D):
+            if sp.sympify(G[j]) == sym("gx%d" % j):
+                bad = (j, "(component never written)")
+                break
             ok, w = numeric_equal(sp.diff(V1, X[j]), sp.sympify(G[j]), syms, rnd, points=8)
             if ok is False:
                 bad = (j, w)
                 break
+        unwritten = bad is not None and sp.sympify(G[bad[0]]) == sym("gx%d" % bad[0])
         R.check(bad is None, "R-C06-2", inst + " gradient", f.loc(), "gx = d value / d x in the %d-dimensional instance" % D,
+                ("gradient component %s is never written at dimension %d (the blocks of the gradient loop do not cover it): the caller receives whatever the buffer held" % (
+                    bad[0], D)) if unwritten else
                 "gradient component %s is not the derivative of the value %s" % (bad[0] if bad else "", bad[1] if bad else ""))
-    R.note("benchmark functions: %d interpreted at D=%d, %d outside the fragment: %s" % (n_ok, D, n_skip, "; ".join(skipped[:30])))
-    return n_ok
+    return n_ok, n_skip
 
 
 def rule_decision(F, R):
